@@ -106,6 +106,10 @@ ITEMS = [
      r"&& (?P<e>now > r\.record\.get_created\(\) \+ 1000)", {"now": "now", "r.record.get_created()": "created"}, False),
     ("hp_flush_far_enough", [("now", "N"), ("expires", "N")], "bool", DC, r"pub\(crate\) fn add_or_update\(",
      r"&& (?P<e>r\.record\.get_expire\(\) > now \+ 1000)", {"now": "now", "r.record.get_expire()": "expires"}, False),
+    # a record on its way out (TTL <= 1) announced again with TTL > 1 is returned as new
+    ("hp_revived", [("old_ttl", "N"), ("new_ttl", "N")], "bool", DC, r"pub\(crate\) fn add_or_update\(",
+     r"let revived =\s*(?P<e>r\.record\.get_record\(\)\.get_ttl\(\) <= 1 && incoming\.get_record\(\)\.get_ttl\(\) > 1);",
+     {"r.record.get_record().get_ttl()": "old_ttl", "incoming.get_record().get_ttl()": "new_ttl"}, False),
     ("hp_flush_new_expire", [("now", "N")], "N", DC, r"pub\(crate\) fn add_or_update\(",
      r"let new_expire = (?P<e>now \+ 1000);", {"now": "now"}, False),
 ]
